@@ -427,7 +427,7 @@ def verdict(c):
 def classify(c, reason):
     if c.payload["stream"] == "scope":
         f = c.payload.get("features", [])
-        for k in ("native-closure", "posonly-name-in-kwargs", "method-on-temporary"):
+        for k in ("native-closure", "method-on-temporary"):        # recorded known findings (C03-F1 is fixed)
             if k in f:
                 return k
         return "scope:" + "+".join(f)
@@ -444,10 +444,8 @@ def classify(c, reason):
         call = calls[i]
         has_kw = c.payload["sigt"][4]
         names_po = [f"p{j}" for j in range(c.payload["sigt"][0])]
-        if has_kw and any(re.search(rf"\b{p}=|'{p}':", call) for p in names_po):
-            kinds.add("posonly-name-in-kwargs")
-        else:
-            return "bind-other"
+        return "bind-other:" + ("posonly-name-in-kwargs" if has_kw and any(
+            re.search(rf"\b{p}=|'{p}':", call) for p in names_po) else "unclassified")
     return "+".join(sorted(kinds))
 
 
